@@ -1,7 +1,7 @@
 """
 C11 -- a byte stream is split into exactly the messages it contains.
 
-Streams  s0 m1 s1 ... mj sj  over a pool of 7 messages (editions 2/3/4, compressed or not, data categories
+Streams  s0 m1 s1 ... mj sj  over a pool of 8 messages (editions 2/3/4, compressed or not, data categories
 0/2/11(no subsets), payloads holding the octet-aligned bytes 'BUFR' and '7777' in the data section and in
 section 2) and 9 separators (empty, GTS header, binary noise, partial signatures B / BU / BUF / BUFBUF,
 '7777', 'RBUF'):
@@ -55,6 +55,12 @@ def pool():
         ('ed4-cat11-nosub', 4, None, [1001], 0, False, 11, None),
         ('ed3-sec2-BUFR-data', 3, b'\x07', [205008, 2001], 2, False, 2, [b'xxBUFR\x00\x00', 1, b'7777BUFR', 2]),
     ]
+    # a complete valid message, octet aligned, inside the data section of another one
+    from mc.ref.bits import BitBuf
+    bb = BitBuf()
+    bb.put(5, 7)
+    inner = message.build(message.Spec(descs=[1001], nsub=1), bb)[0]
+    defs.append(('ed4-message-in-data', 4, None, [205000 + len(inner)], 1, False, 2, [inner]))
     out = []
     for name, ed, s2, descs, nsub, comp, cat, vals in defs:
         it = iter(vals or [])
